@@ -394,6 +394,14 @@ khist_print(const kop_t *ops, int n, vh_buf_t *b) {
 int kh_vid(int opidx, int j) { return (opidx + 1) * 8 + j; }
 
 void
+kv_marker_key(int opidx, char *buf) {
+  buf[0] = 'm';
+  buf[1] = (char)('0' + (opidx / 10) % 10);
+  buf[2] = (char)('0' + opidx % 10);
+  buf[3] = 0;
+}
+
+void
 kh_init(khist_t *h, const kcfg_t *cfg, const char *dbname) {
   memset(h, 0, sizeof(*h));
   h->cfg = *cfg;
@@ -501,6 +509,16 @@ do_write(khist_t *h, const kop_t *op) {
     vbuf = malloc(kv_vlen(VS_1M));
   wo.sync = op->sync;
   ldb_batch_init(&batch);
+  if (h->markers) {
+    /* unique marker key per batch: makes the surviving batch set observable */
+    char mk[8];
+    ldb_slice_t k, v;
+    kv_marker_key(opidx, mk);
+    kv_vgen(vbuf, kh_vid(opidx, 7), VS_SHORT);
+    k = ldb_slice(mk, 3);
+    v = ldb_slice(vbuf, kv_vlen(VS_SHORT));
+    ldb_batch_put(&batch, &k, &v);
+  }
   if (op->kind == OP_BIGBATCH) {
     for (j = 0; j < op->n * 100; j++) {
       kupd_t u;
@@ -851,3 +869,104 @@ kcur_call(kcursor_t *c, int call, const char *t, size_t tn, const kcfg_t *cfg) {
       break;
   }
 }
+
+/* ------------------------------------------------------------------ */
+/* layout / directory helpers                                         */
+/* ------------------------------------------------------------------ */
+
+/* parse "leveldb.sstables": lines "--- level N ---" then " num:size[...]".
+ * Returns number of files; fills nums/levels. */
+int
+kv_parse_sstables(ldb_t *db, uint64_t *nums, int *levels, int max) {
+  char *s = NULL, *p;
+  int n = 0, level = -1;
+  if (!ldb_property(db, "leveldb.sstables", &s) || !s)
+    return -1;
+  for (p = s; *p;) {
+    char *e = strchr(p, '\n');
+    size_t len = e ? (size_t)(e - p) : strlen(p);
+    if (len > 10 && strncmp(p, "--- level ", 10) == 0) {
+      level = atoi(p + 10);
+    } else if (len > 1 && p[0] == ' ' && p[1] >= '0' && p[1] <= '9') {
+      if (n < max) {
+        nums[n] = strtoull(p + 1, NULL, 10);
+        levels[n] = level;
+        n++;
+      }
+    }
+    if (!e)
+      break;
+    p = e + 1;
+  }
+  ldb_free(s);
+  return n;
+}
+
+
+/* (b) directory holds exactly the live files */
+int
+kv_files_exact_check(ldb_t *db, const char *dbdir, char *err, size_t en) {
+  char names[256][64];
+  uint64_t nums[64];
+  int levels[64], n, nn, i, j, nlogs = 0, ncur = 0, nman = 0;
+  char cur[128] = "";
+  int ci;
+  n = kv_parse_sstables(db, nums, levels, 64);
+  nn = vfs_list(vfs_cur, dbdir, names, 256);
+  {
+    char cp[300];
+    snprintf(cp, sizeof(cp), "%s/CURRENT", dbdir);
+    ci = vfs_lookup(vfs_cur, cp);
+  }
+  if (ci >= 0) {
+    const vinode_t *ino = vfs_inode(vfs_cur, ci);
+    size_t l = ino->len < 100 ? ino->len : 100;
+    memcpy(cur, ino->data, l);
+    cur[l] = 0;
+    if (l && cur[l - 1] == '\n')
+      cur[l - 1] = 0;
+  }
+  for (i = 0; i < nn; i++) {
+    const char *nm = names[i];
+    size_t l = strlen(nm);
+    if (strcmp(nm, "CURRENT") == 0) { ncur++; continue; }
+    if (strcmp(nm, "LOCK") == 0) continue;
+    if (strcmp(nm, "LOG") == 0 || strcmp(nm, "LOG.old") == 0) continue;
+    if (strncmp(nm, "MANIFEST-", 9) == 0) {
+      nman++;
+      if (strcmp(nm, cur) != 0) {
+        snprintf(err, en, "stale descriptor %s left in the directory (CURRENT names %s)", nm, cur);
+        return 0;
+      }
+      continue;
+    }
+    if (l > 4 && strcmp(nm + l - 4, ".log") == 0) { nlogs++; continue; }
+    if (l > 4 && (strcmp(nm + l - 4, ".ldb") == 0 || strcmp(nm + l - 4, ".sst") == 0)) {
+      uint64_t num = strtoull(nm, NULL, 10);
+      for (j = 0; j < n; j++)
+        if (nums[j] == num)
+          break;
+      if (j == n) {
+        snprintf(err, en, "orphan table file %s (not part of the current version) left after the operation completed", nm);
+        return 0;
+      }
+      continue;
+    }
+    if (l > 6 && strcmp(nm + l - 6, ".dbtmp") == 0) {
+      snprintf(err, en, "temporary file %s left in the directory", nm);
+      return 0;
+    }
+    snprintf(err, en, "unexpected file %s in the database directory", nm);
+    return 0;
+  }
+  if (ncur != 1 || nman != 1) {
+    snprintf(err, en, "directory has %d CURRENT and %d MANIFEST files", ncur, nman);
+    return 0;
+  }
+  if (nlogs != 1) {
+    snprintf(err, en, "%d write-ahead logs left after the operation completed (expected exactly the live one)", nlogs);
+    return 0;
+  }
+  return 1;
+}
+
